@@ -63,6 +63,24 @@ def multi_cfgs(tier):
     return c
 
 
+def multi_sections(n):
+    import warnings
+
+    from openaerostruct.geometry.geometry_group import build_sections
+
+    surface = {
+        "name": "surface", "is_multi_section": True, "num_sections": n, "sec_name": ["sec%d" % i for i in range(n)],
+        "symmetry": True, "S_ref_type": "wetted", "taper": [1.0, 0.8, 0.7][:n], "span": [2.0, 3.0, 1.5][:n],
+        "sweep": [0.0, 5.0, 10.0][:n], "chord_cp": [np.array([1, 1]), np.array([1.0, 0.8]), np.array([0.8, 0.7])][:n],
+        "twist_cp": [np.zeros(2)] * n, "root_chord": 1.0, "meshes": "gen-meshes", "nx": 2, "ny": [2, 3, 2][:n],
+        "CL0": 0.0, "CD0": 0.015, "k_lam": 0.05, "c_max_t": 0.303, "with_viscous": False, "with_wave": False,
+        "groundplane": False, "root_section": n - 1,
+    }
+    with warnings.catch_warnings():
+        warnings.simplefilter("ignore")
+        return build_sections(surface)
+
+
 def pos(*names):
     """assumption builder: listed inputs strictly positive (all entries)"""
     def a(ins):
@@ -112,6 +130,16 @@ def build_cases(tier):
         npts = sum((x["mesh"].shape[0] - 1) * (x["mesh"].shape[1] - 1) for x in ss)
         C.append(Case("EvalVelocities[%s]" % cn, F("aerodynamics.eval_velocities", "EvalVelocities", surfaces=ss,
                                                    eval_name="ev", num_eval_points=npts)))
+    from symoas.kernels import EVAL_MTX_STUBS
+    for cn, ss in SM.items():
+        npts = 2
+        C.append(Case("EvalVelMtx[%s]" % cn, F("aerodynamics.eval_mtx", "EvalVelMtx", surfaces=ss, eval_name="ev",
+                                               num_eval_points=npts), extra=EVAL_MTX_STUBS, skip_wrt=("alpha",),
+                      note="vortex kernels replaced by uninterpreted atoms (kernel contracts are separate obligations)"))
+    C.append(Case("EvalVelMtx(ground)[1symL_2x2]", F("aerodynamics.eval_mtx", "EvalVelMtx",
+                                                      surfaces=[dict(SM["1symL_2x2"][0], groundplane=True)],
+                                                      eval_name="ev", num_eval_points=2), extra=EVAL_MTX_STUBS,
+                  skip_wrt=("alpha",)))
     per_surface("VLMGeometry", "aerodynamics.geometry", "VLMGeometry")
     per_surface("VLMGeometry(projected)", "aerodynamics.geometry", "VLMGeometry", surf_over={"S_ref_type": "projected"})
     per_multi("GetVectors", "aerodynamics.get_vectors", "GetVectors", comp_kw={"eval_name": "ev", "num_eval_points": 2})
@@ -186,9 +214,150 @@ def build_cases(tier):
     per_multi("MomentCoefficient", "functionals.moment_coefficient", "MomentCoefficient")
     per_multi("SumAreas", "functionals.sum_areas", "SumAreas", names=["symL_2x2+full_2x3"])
     per_multi("TotalLiftDrag", "functionals.total_lift_drag", "TotalLiftDrag", names=["1symL_2x2", "symL_2x2+full_2x3"])
+    # ---- geometry
+    G = "geometry.geometry_mesh_transformations"
+    gm = [("symL_2x3", 2, 3, True, False), ("full_2x3", 2, 3, False, False), ("symR_2x3", 2, 3, True, True)]
+    if tier == "thorough":
+        gm += [("symL_3x2", 3, 2, True, False), ("full_3x5", 3, 5, False, False), ("symL_2x4", 2, 4, True, False)]
+    raps = [0.25] if tier == "quick" else [0.25, 0.0, 1.0, 0.625]
+    for (cn, nx, ny, symm, right) in gm:
+        mesh = K.rect_mesh(nx, ny, symm, right=right, jitter=0.25, seed=3)
+        shp = mesh.shape
+        for rap in raps:
+            tag = "%s,ref=%g" % (cn, rap)
+            C.append(Case("Taper[%s]" % tag, F(G, "Taper", val=0.8, mesh=mesh, symmetry=symm, ref_axis_pos=rap)))
+            C.append(Case("ScaleX[%s]" % tag, F(G, "ScaleX", val=np.ones(ny), mesh_shape=shp, ref_axis_pos=rap)))
+            C.append(Case("Stretch[%s]" % tag, F(G, "Stretch", val=9.0, mesh_shape=shp, symmetry=symm, ref_axis_pos=rap)))
+            for rx in (True, False):
+                C.append(Case("Rotate(rotate_x=%s)[%s]" % (rx, tag), F(G, "Rotate", val=np.zeros(ny), mesh_shape=shp,
+                                                                       symmetry=symm, ref_axis_pos=rap, rotate_x=rx)))
+        C.append(Case("Sweep[%s]" % cn, F(G, "Sweep", val=5.0, mesh_shape=shp, symmetry=symm)))
+        C.append(Case("Dihedral[%s]" % cn, F(G, "Dihedral", val=5.0, mesh_shape=shp, symmetry=symm)))
+        C.append(Case("ShearX[%s]" % cn, F(G, "ShearX", val=np.zeros(ny), mesh_shape=shp)))
+        C.append(Case("ShearY[%s]" % cn, F(G, "ShearY", val=np.zeros(ny), mesh_shape=shp)))
+        C.append(Case("ShearZ[%s]" % cn, F(G, "ShearZ", val=np.zeros(ny), mesh_shape=shp)))
+    per_surface("RadiusComp", "geometry.radius_comp", "RadiusComp", names=["symL_2x3", "full_2x3"])
+    per_surface("MonotonicConstraint", "geometry.monotonic_constraint", "MonotonicConstraint",
+                names=["symL_2x3", "full_2x3"], comp_kw={"var_name": "chord"})
+    secs = multi_sections(3 if tier == "thorough" else 2)
+    C.append(Case("GeomMultiUnification(shift)", F("geometry.geometry_unification", "GeomMultiUnification", sections=secs,
+                                                   surface_name="surface", shift_uni_mesh=True)))
+    C.append(Case("GeomMultiUnification", F("geometry.geometry_unification", "GeomMultiUnification", sections=secs,
+                                            surface_name="surface", shift_uni_mesh=False)))
+    C.append(Case("GeomMultiJoin", F("geometry.geometry_multi_join", "GeomMultiJoin", sections=secs,
+                                     dim_constr=[np.ones(3)] * (len(secs) - 1))))
     C.append(Case("ReynoldsComp", F("common.reynolds_comp", "ReynoldsComp")))
     C.append(Case("MultiCD", F("integration.multipoint_comps", "MultiCD", n_points=3)))
     return C
+
+
+# ------------------------------------------------------------------------------- kernel contracts
+def kernel_obligations(rep, timeout):
+    """The derivative kernels of eval_mtx equal the DAG derivative of the value kernels (real code,
+    unabstracted, every path of the |den| > tol branch).  These contracts justify the `ufn` stubs."""
+    import importlib
+
+    from symoas import diff, execute, lower
+    from symoas.npproxy import symbolic_numpy
+    from symoas.sym import symarray, symify
+
+    em = importlib.import_module("openaerostruct.aerodynamics.eval_mtx")
+    rep.encode(em._compute_finite_vortex, em._compute_finite_vortex_deriv1, em._compute_finite_vortex_deriv2,
+               em._compute_semi_infinite_vortex, em._compute_semi_infinite_vortex_deriv)
+    va = importlib.import_module("openaerostruct.utils.vector_algebra")
+    rep.encode(va.compute_dot, va.compute_dot_deriv, va.compute_cross, va.compute_cross_deriv1, va.compute_cross_deriv2,
+               va.compute_norm, va.compute_norm_deriv)
+    r1 = symarray("r1", (1, 3))
+    r2 = symarray("r2", (1, 3))
+    u = symarray("u", (1, 3))
+    eye = np.eye(3).reshape(1, 3, 3)
+    groups = []
+
+    def run_fv():
+        return (symify(em._compute_finite_vortex(r1, r2)), symify(em._compute_finite_vortex_deriv1(r1, r2, eye)),
+                symify(em._compute_finite_vortex_deriv2(r1, r2, eye)))
+
+    def run_siv():
+        return (symify(em._compute_semi_infinite_vortex(u, r2)), symify(em._compute_semi_infinite_vortex_deriv(u, r2, eye)))
+
+    allobs = []
+    with symbolic_numpy():
+        pf = execute.explore(run_fv)
+        ps = execute.explore(run_siv)
+    for pi, p in enumerate(pf):
+        val, d1, d2 = p.result
+        outs = list(val.ravel())
+        lw = lower.Lowerer()
+        obs = []
+        for which, (arr, dk) in enumerate(((r1, d1), (r2, d2))):
+            for j in range(3):
+                col = diff.diff_all(outs, arr[0, j])
+                for i in range(3):
+                    obs.append(oblig.Ob("kernel:finite_vortex|p%d|d K[%d]/d r%d[%d]" % (pi, i, which + 1, j),
+                                        lhs=dk[0, i, j], rhs=col[i], assume=p.conds,
+                                        meta={"case": "kernel:finite_vortex", "path": partials.path_label(p)}))
+        oblig.discharge(obs, lw=lw, timeout=timeout)
+        allobs += obs
+    for pi, p in enumerate(ps):
+        val, dk = p.result
+        outs = list(val.ravel())
+        lw = lower.Lowerer()
+        obs = []
+        for j in range(3):
+            col = diff.diff_all(outs, r2[0, j])
+            for i in range(3):
+                obs.append(oblig.Ob("kernel:semi_infinite_vortex|p%d|d K[%d]/d r[%d]" % (pi, i, j), lhs=dk[0, i, j],
+                                    rhs=col[i], assume=p.conds,
+                                    meta={"case": "kernel:semi_infinite_vortex", "path": partials.path_label(p)}))
+        oblig.discharge(obs, lw=lw, timeout=timeout)
+        allobs += obs
+    # numeric validation of the two value kernels' DAG against the real kernels
+    rng = np.random.default_rng(5)
+    a, b = rng.random((1, 3)) + 0.3, rng.random((1, 3)) - 1.2
+    env = {"r1[0,%d]" % k: a[0, k] for k in range(3)}
+    env.update({"r2[0,%d]" % k: b[0, k] for k in range(3)})
+    real = em._compute_finite_vortex(a, b)
+    for p in pf:
+        try:
+            ok = all(evalb(d, evalf(bool_syms(d), env)) == v for d, v, _ in p.decisions)
+        except Exception:
+            ok = False
+        if ok:
+            got = [evalf([x], env)[x.nid] for x in p.result[0].ravel()]
+            err = float(np.max(np.abs(np.array(got) - real.ravel())))
+            if err > 1e-12:
+                rep.errors.append("kernel DAG does not reproduce the real finite-vortex kernel (err %g)" % err)
+            rep.validation["cases"] += 1
+    return allobs, {"case": "kernels", "paths": len(pf) + len(ps)}
+
+
+def kernel_replay(obid, env, tol=1e-6):
+    """Real kernels, real numpy: derivative kernel vs Richardson central difference of the value kernel."""
+    import importlib
+    import re
+
+    em = importlib.import_module("openaerostruct.aerodynamics.eval_mtx")
+    m = re.search(r"d K\[(\d)\]/d (r1|r2|r)\[(\d)\]", obid)
+    i, wrt, j = int(m.group(1)), m.group(2), int(m.group(3))
+    r1 = np.array([[env["r1[0,%d]" % k] for k in range(3)]])
+    r2 = np.array([[env["r2[0,%d]" % k] for k in range(3)]])
+    u = np.array([[env["u[0,%d]" % k] for k in range(3)]])
+    eye = np.eye(3).reshape(1, 3, 3)
+    if "finite_vortex" in obid and "semi" not in obid:
+        f = lambda a, b: em._compute_finite_vortex(a, b)[0, i]
+        if wrt == "r1":
+            an = em._compute_finite_vortex_deriv1(r1, r2, eye)[0, i, j]
+            g = lambda h: (f(r1 + h * eye[0, j], r2) - f(r1 - h * eye[0, j], r2)) / (2 * h)
+        else:
+            an = em._compute_finite_vortex_deriv2(r1, r2, eye)[0, i, j]
+            g = lambda h: (f(r1, r2 + h * eye[0, j]) - f(r1, r2 - h * eye[0, j])) / (2 * h)
+    else:
+        f = lambda a, b: em._compute_semi_infinite_vortex(a, b)[0, i]
+        an = em._compute_semi_infinite_vortex_deriv(u, r2, eye)[0, i, j]
+        g = lambda h: (f(u, r2 + h * eye[0, j]) - f(u, r2 - h * eye[0, j])) / (2 * h)
+    fd = (4 * g(5e-5) - g(1e-4)) / 3
+    bad = abs(an - fd) > tol * max(1.0, abs(an), abs(fd)) + 1e-9
+    return bad, "%s: derivative kernel %.9g, central difference of value kernel %.9g" % (obid, an, fd)
 
 
 # ------------------------------------------------------------------------------- run
@@ -299,6 +468,34 @@ def run(tier, seed, only=None):
     if only:
         cases = [c for c in cases if any(s in c.name for s in only)]
     timeout = 20.0 if tier == "quick" else 60.0
+    if not only or any("kernel" in o for o in only):
+        t0 = time.time()
+        kobs, kinfo = kernel_obligations(rep, timeout)
+        rep.add_obs("kernels", kobs)
+        s = oblig.summarize(kobs)
+        kinfo.update({k: s[k] for k in ("obligations", "discharged", "candidate", "inconclusive", "nontrivial")})
+        rep.groups.append(kinfo)
+        tried = {}
+        for o in kobs:
+            if o.verdict == "candidate":
+                fam = "%s derivative kernel path{%s}" % (o.meta["case"], o.meta["path"])
+                if tried.get(fam, 0) >= 3:
+                    continue
+                tried[fam] = tried.get(fam, 0) + 1
+                env = {"r1[0,%d]" % k: v for k, v in enumerate((0.7, 0.4, 0.9))}
+                env.update({"r2[0,%d]" % k: v for k, v in enumerate((-0.6, 0.8, 0.5))})
+                env.update({"u[0,%d]" % k: v for k, v in enumerate((0.9950041652780258, 0.0, 0.09983341664682815))})
+                menv = oblig.model_env(o)
+                for e in (env, {**env, **{k: v for k, v in menv.items() if k in env}}):
+                    bad, what = kernel_replay(o.id, e)
+                    if bad:
+                        rep.violation(fam, what, {"case": o.meta["case"], "ob": o.id, "env": e, "kernel": True})
+                        break
+                else:
+                    rep.not_reproduced.append({"id": o.id, "why": what})
+        rep.log("%-45s paths=%d obl=%d nontriv=%d disch=%d cand=%d inconc=%d  %.1fs" % (
+            "kernels (eval_mtx)", kinfo["paths"], s["obligations"], s["nontrivial"], s["discharged"], s["candidate"],
+            s["inconclusive"], time.time() - t0))
     for case in cases:
         t0 = time.time()
         try:
@@ -337,6 +534,12 @@ def replay_file(path):
     spec = json.load(open(path))
     tier = "thorough"
     cases = {c.name: c for c in build_cases(tier)}
+    if spec.get("kernel"):
+        bad, what = kernel_replay(spec["ob"], spec["env"])
+        print(what)
+        if bad:
+            print("VIOLATION property=%s replay=%s" % (PID, path))
+        return 1 if bad else 0
     case = cases[spec["case"]]
     bad, what = replay_point(case, spec["env"], spec["meta"])
     print(what)
